@@ -566,7 +566,10 @@ def normalise_atom(expr, value):
             inner = expr[1]
             if isinstance(value, str):
                 if value in OPTION_LIKE:
-                    return ("call", "core::option::Option::<T>::is_some", (inner,), ()), OPTION_LIKE[value]
+                    expr, value = ("call", "core::option::Option::<T>::is_some", (inner,), ()), OPTION_LIKE[value]
+                    if inner[0] == "call" and inner[1] in FIRST_CALLS:
+                        continue        # `match x.first() { Some(..) .. }` is a test of `x.len()`
+                    return expr, value
                 if value in RESULT_LIKE:
                     return ("call", "core::result::Result::<T, E>::is_ok", (inner,), ()), RESULT_LIKE[value]
                 if value in ("Continue", "Break") and inner[0] == "call" and not isinstance(inner[1], tuple) and inner[1].endswith("core::ops::try_trait::Try>::branch"):
